@@ -25,11 +25,13 @@ META = {
     "assumptions": [],
     "not_decided": "equality of the rebuilt view with the source slice and applicability of every emitted diff for all integer values of limit/count/len/index (arithmetic)",
 }
+META["explanation"] += " R09.11 imbl's asserting partial calls (take / split_at / split_off / slice) in the Head, Tail, Skip modules take a position bounded by the vector's length, never one made of the limit / count alone (it panics for a limit beyond the length)."
 
 
 def run(ctx):
     F = ctx.facts
     ads = find_adapters(F)
+    register_roles(ctx, ads)
     for name in ADAPTERS:
         a = ads[name]
         for what, v in (("translator", a.translator), ("poll function", a.poll), ("update function", a.update), ("per-diff closure", a.closure)):
@@ -48,6 +50,7 @@ def run(ctx):
         sites = [(blk, t) for blk, t in a.poll.built.calls() if wakers.is_poll_call(t)] + [(blk, t) for blk, t, c in wakers.local_poll_helper_calls(F, a.poll)]
         wakers.check_poll_fn(ctx, "R14.1", a.poll, sites)
     r09_6(ctx, ads)
+    r09_11(ctx)
     # applicability / order of what is emitted also rests on the buffer discipline and on room-before-entry
     from . import groups, c15 as _c15
     groups.util_buffers(ctx)
@@ -499,3 +502,45 @@ def r09_10(ctx, a):
                         else:
                             ctx.undecided("R09.10", f, key, where, "expression not linear: %s (%s)" % (fmt(op, 4), "; ".join(nz.notes[:2])))
     return n
+
+
+PARTIAL = r"imbl::GenericVector::<.*>::(take|split_at|split_off|slice)$"
+
+
+def r09_11(ctx):
+    """imbl's `take(n)`, `split_at(n)`, `split_off(n)`, `slice(range)` panic for n > len (they assert it; `truncate`, `skip` do
+    not). The limit / count is any number from 0 to beyond the vector length, so such a call in the Head / Tail / Skip
+    modules whose position argument is made of the limit / count alone - not bounded by the vector's length through
+    min / saturating_sub / a dominating comparison - panics for a limit larger than the length."""
+    F = ctx.facts
+    n = 0
+    for f in F.find(crate=UT):
+        if not re.match(r"(<.*)?vector::(head|tail|skip)::", f.path) and not re.search(r"vector::(head|tail|skip)::", f.raw.get("self_ty") or "") \
+                and not re.search(r"vector::(head|tail|skip)::", f.path):
+            continue
+        b = f.built
+        if not b:
+            continue
+        for blk, t in b.calls(PARTIAL):
+            if len(t["args"]) < 2:
+                continue
+            n += 1
+            e = b.expr_of_op(t["args"][1])
+            where = b.line_at((blk, 10 ** 6))
+            is_len = lambda x: x[0] == "call" and ecall_matches(x, r"::len$")
+            limity = lambda x: (x[0] == "field" and x[2] in ("limit", "count")) or (x[0] == "param" and re.search(r"limit|count", str(x[2] or "")))
+            bounded = contains(e, is_len)
+            facts = conds.dominating_facts(b, blk)
+            compared = any(conds.cmp_holds(facts, op_, lambda y: contains(y, is_len), lambda y: contains(y, limity) or y == strip(e)) for op_ in ("Lt", "Le", "Gt", "Ge", "Eq"))
+            closed = not contains(e, lambda x: x[0] in ("unknown", "local", "cycle", "undef")) and not contains(e, lambda x: x[0] == "call" and not is_len(x) and not ecall_matches(x, r"Clone>?::clone$|Deref>?::deref$|::(min|max|saturating_sub)$"))
+            m = (t.get("callee") or "").split("::")[-1]
+            if bounded or compared:
+                ctx.holds("R09.11", f, "partial-call-bounded:%s" % m, where, "`%s(%s)`: the position is bounded by the vector's length" % (m, fmt(e, 3)))
+            elif contains(e, limity) and closed:
+                ctx.violated("R09.11", f, "partial-call-bounded:%s" % m, where,
+                             "`%s` calls imbl's `%s(%s)`, which asserts its position <= len, with a position made of the %s alone: it panics whenever the limit / count is larger than the number of buffered items (limits beyond the length are explicitly allowed)" % (
+                                 f.path, m, fmt(e, 3), "limit / count"))
+            else:
+                ctx.undecided("R09.11", f, "partial-call-bounded:%s" % m, where, "position `%s` not recognised" % fmt(e, 4))
+    if not n:
+        ctx.holds("R09.11", None, "partial-calls=0", None, "no take / split_at / split_off / slice call in the Head, Tail, Skip modules (positive example: seeded change C12a-w3)")
